@@ -19,12 +19,15 @@ PostMatches(b, n) ==
                                                 /\ (~Fld(L, r, f).hidden => EnumIdx(L, b, r, f) = P.en[r][f])
   /\ \A g \in Groups(L) : View(L, b, g, TRUE) = ToSet(P.gv[g][1]) /\ View(L, b, g, FALSE) = ToSet(P.gv[g][2])
 TInit == /\ tid \in 1..Len(Traces) /\ l = 1 /\ lay = Traces[tid].lay
-         /\ bits = ResetBits(Layouts[Traces[tid].lay]) /\ nregs = Cardinality(Top(Layouts[Traces[tid].lay]))
+         /\ bits = ResetBits(Layouts[Traces[tid].lay]) /\ nregs = Cardinality(Top(Layouts[Traces[tid].lay])) + Rest(Layouts[Traces[tid].lay])
          /\ act = [a |-> "Init"] /\ TLCSet(tid, 1)
 TStart == Is("Init") /\ UNCHANGED <<lay, bits, nregs, act>> /\ PostMatches(bits, nregs) /\ Adv
+\* an accepted whole-register write reads back through the view it was written through (lemma RegWriteWins of RegFile as a clause of every
+\* observed step: implied by SetView on a layout whose groups tile, the deciding clause on a shipped layout whose group is wider than its members)
+ReadsBack(b) == ~E.refused => View(L, b, E.r, E.raw) = ToSet(E.v)
 TSetReg == /\ Is("SetReg")
            /\ IF \E i \in ToSet(E.v) : i >= W(L, E.r) THEN SetRegTooBig(E.r, ToSet(E.v)) ELSE SetReg(E.r, ToSet(E.v), E.raw)
-           /\ act'.refused = E.refused /\ PostMatches(bits', nregs') /\ Adv
+           /\ act'.refused = E.refused /\ ReadsBack(bits') /\ PostMatches(bits', nregs') /\ Adv
 TSetField == /\ Is("SetField")
              /\ (SetField(E.r, E.f, ToSet(E.v)) \/ SetFieldTooBig(E.r, E.f, ToSet(E.v)))
              /\ act'.refused = E.refused /\ PostMatches(bits', nregs') /\ Adv
